@@ -26,6 +26,7 @@ import (
 )
 
 var errC40Unhealthy = errors.New("c40: fake client failure")
+var errC40Tolerated = errors.New("c40: an error the configured HealthCheck accepts")
 
 type c40Rec struct {
 	mu    sync.Mutex
@@ -123,6 +124,7 @@ type c40Fake struct {
 	// outcome decides the result of the n-th call (1-based) and how long it takes
 	outcome func(n int) (healthy bool, d time.Duration)
 	gate    func() // optional barrier inside DoDeadline
+	errOf   func(healthy bool) error // optional: the error DoDeadline returns (default: unhealthy <=> error)
 }
 
 func (f *c40Fake) PendingRequests() int { return int(f.ext.Load() + f.inflight.Load()) }
@@ -153,6 +155,9 @@ func (f *c40Fake) DoDeadline(req *Request, resp *Response, deadline time.Time) e
 	r.emit(vfRec{"ev": "h.end", "g": g, "c": f.id, "a": ok, "b": 0})
 	r.mu.Unlock()
 	f.inflight.Add(-1)
+	if f.errOf != nil {
+		return f.errOf(healthy)
+	}
 	if !healthy {
 		return errC40Unhealthy
 	}
@@ -187,7 +192,8 @@ type c40Op struct {
 	C       int       `json:"c"`
 	Set     []int     `json:"set"`
 	Allowed []int     `json:"allowed"`
-	Ok      bool      `json:"ok"`
+	Ok      bool      `json:"ok"`  // healthy: what the load accounting follows
+	Err     bool      `json:"err"` // the client's DoDeadline returned an error
 	Snap    []c40Snap `json:"snap"`
 }
 
@@ -195,6 +201,7 @@ type c40Beh struct {
 	Init []int   `json:"init"`
 	Ext  []int   `json:"ext"`
 	Hist []c40Op `json:"hist"`
+	HC   string  `json:"hc"` // "default": no HealthCheck configured; "custom": a callback decides
 }
 
 func TestVerifC40Seq(t *testing.T) {
@@ -214,10 +221,12 @@ func TestVerifC40Seq(t *testing.T) {
 		rec.worker(1)
 		fakes := map[int]*c40Fake{}
 		nextOK := true
+		var nextErr error
 		for id := 1; id <= len(b.Ext); id++ {
 			f := &c40Fake{id: id, rec: rec}
 			f.ext.Store(int32(b.Ext[id-1]))
 			f.outcome = func(int) (bool, time.Duration) { return nextOK, 0 }
+			f.errOf = func(bool) error { return nextErr }
 			fakes[id] = f
 		}
 		var cl []BalancingClient
@@ -225,9 +234,16 @@ func TestVerifC40Seq(t *testing.T) {
 			cl = append(cl, fakes[id])
 		}
 		lb := &LBClient{Clients: cl, Timeout: 30 * time.Second}
+		if b.HC == "custom" {
+			// the configured check, not the error, says whether the client is healthy
+			lb.HealthCheck = func(req *Request, resp *Response, err error) bool { return nextOK }
+		}
 		rec.lb = lb // NOT initialised here: the history may change the membership before the first call
 		VerifHook = rec.hook
 		sig := fmt.Sprintf("init=%v ext=%v", b.Init, b.Ext)
+		if b.HC == "custom" {
+			sig += " healthcheck"
+		}
 		info := vfRec{"behaviour": b}
 		var firstPenalty time.Time
 		stop := false
@@ -249,6 +265,9 @@ func TestVerifC40Seq(t *testing.T) {
 				lb.RemoveClients(func(c BalancingClient) bool { return rm[c.(*c40Fake).id] })
 			case "call":
 				sig += fmt.Sprintf("(%v)", op.Ok)
+				if op.Err == op.Ok {
+					sig += fmt.Sprintf("err=%v", op.Err)
+				}
 				if !firstPenalty.IsZero() && time.Since(firstPenalty) > 1500*time.Millisecond {
 					// a penalty may be about to expire (3 s): the sequential expectation no
 					// longer applies.  Inconclusive, not a verdict.
@@ -260,6 +279,14 @@ func TestVerifC40Seq(t *testing.T) {
 				rec.evs = rec.evs[:0]
 				rec.mu.Unlock()
 				nextOK = op.Ok
+				switch {
+				case !op.Err:
+					nextErr = nil
+				case op.Ok:
+					nextErr = errC40Tolerated
+				default:
+					nextErr = errC40Unhealthy
+				}
 				before := map[int]int32{}
 				for id, f := range fakes {
 					before[id] = f.calls.Load()
@@ -336,10 +363,7 @@ func TestVerifC40Seq(t *testing.T) {
 					stop = true
 					continue
 				}
-				wantErr := error(nil)
-				if !op.Ok {
-					wantErr = errC40Unhealthy
-				}
+				wantErr := nextErr
 				if !errors.Is(err, wantErr) || (wantErr == nil && err != nil) {
 					vfViol("result|"+sig, fmt.Sprintf("call #%d returned %v, the client's own result was %v", oi, err, wantErr), info)
 					stop = true
